@@ -80,6 +80,7 @@ ChainsNest == {<<0>>, <<0, 1>>, <<0, 1, 2>>, <<0, 3>>}
 InputFork == (1 :> <<0, 1>>) @@ (2 :> <<0, 1>>) @@ (3 :> <<0, 3>>)
 InputNest == (1 :> <<0, 1, 2>>) @@ (2 :> <<0, 1>>) @@ (3 :> <<0, 3>>)
 InputNest3 == (1 :> <<0, 1, 2>>) @@ (2 :> <<0, 1, 2>>) @@ (3 :> <<0, 1>>)
+InputUni == (1 :> <<0, 1, 2>>) @@ (2 :> <<0, 1, 2>>) @@ (3 :> <<0, 1, 2>>)
 RankId == [p \in P4 |-> [k \in {0} |-> [r \in 0..6 |-> p]]]
 RankRev == [p \in P4 |-> [k \in {0} |-> [r \in 0..6 |-> 5 - p]]]
 RankMix == [p \in P4 |-> [k \in {0} |-> [r \in 0..6 |-> ((p + r) % 4) + 1]]]
